@@ -12,7 +12,7 @@ import sys, json, io
 import cvss
 from cvss import CVSS2, CVSS3, CVSS4
 from cvss.parser import parse_cvss_from_text
-from obs import esc, unesc, observe, exc_obs
+from obs import esc, unesc, observe, exc_obs, hb_iter
 
 CLS = {"2": CVSS2, "3": CVSS3, "4": CVSS4}
 VER = {CVSS2: "2", CVSS3: "3", CVSS4: "4"}
@@ -154,7 +154,7 @@ def main():
     if job.get("warm"):        # this recording runs after a history that exercised every entry point and API of the library
         from obs import warm_up
         warm_up()
-    for n, it in enumerate(job["items"]):
+    for n, it in enumerate(hb_iter(job["items"])):
         op = it["op"]
         ev = dict(it)
         if op in ("construct", "fromrh"):
